@@ -497,6 +497,66 @@ def D3(m, R):
                 pr_.append('a value that is not an AnsiStr is not rejected first')
             R.check(not pr_, sf, rets[-1] if rets else sf.node, '__eq__ compares the renderings of two AnsiStr', '; '.join(pr_), construct=cons)
             continue
+        # `return self` when the freshly built result `== self`: AnsiStr equality is equality of the renderings (checked above for __eq__), and a
+        # rendering does not show a setting that is hidden under a conflicting one
+        eqret = None
+        for n_ in sf.walk():
+            if isinstance(n_, ast.If) and len(n_.body) >= 1 and isinstance(n_.body[-1], ast.Return) and is_name(n_.body[-1].value, selfn) and \
+                    isinstance(n_.test, ast.Compare) and len(n_.test.ops) == 1 and isinstance(n_.test.ops[0], ast.Eq) and \
+                    selfn in (norm(n_.test.left), norm(n_.test.comparators[0])):
+                eqret = n_
+        if eqret is not None and (tw_inplace or tw_mutator) and name != '__eq__':
+            R.viol(sf, eqret, 'returns this AnsiStr when %s: two AnsiStr are == when their renderings are equal, but %s can change the settings without changing the rendering '
+                              '(red hidden under blue over the same range: removing red leaves the rendering as it is, and the returned object still reports red)'
+                   % (short(eqret.test), name), construct=cons)
+            continue
+        if expr is None and name == 'clip' and body and isinstance(body[0], ast.If) and not body[0].orelse and len(body[0].body) == 1 and \
+                isinstance(body[0].body[0], ast.Return) and is_name(body[0].body[0].value, selfn):
+            # an early `return self` of clip(start, end): right only for bounds that select the whole string -- start None / 0 and end None
+            import itertools
+            from ..finite import eval_guard as _eg
+            ps_ = sf.own_params()[:2]
+            witness = None
+            unknown = False
+            for combo in itertools.product([None, 0, 2, -2], repeat=len(ps_)):
+                env_ = dict(zip(ps_, combo))
+
+                def val_(a_, env_=env_):
+                    if isinstance(a_, ast.Name) and a_.id in env_:
+                        return bool(env_[a_.id])
+                    if isinstance(a_, ast.Compare) and len(a_.ops) == 1 and isinstance(a_.left, ast.Name) and a_.left.id in env_:
+                        c_ = const_val(a_.comparators[0], _MISSING)
+                        if c_ is _MISSING:
+                            return None
+                        x_ = env_[a_.left.id]
+                        op_ = a_.ops[0]
+                        if isinstance(op_, ast.Is):
+                            return x_ is c_
+                        if isinstance(op_, ast.IsNot):
+                            return x_ is not c_
+                        if x_ is None or c_ is None:
+                            return (x_ == c_) if isinstance(op_, ast.Eq) else (x_ != c_) if isinstance(op_, ast.NotEq) else None
+                        return {ast.Eq: x_ == c_, ast.NotEq: x_ != c_, ast.Lt: x_ < c_, ast.LtE: x_ <= c_, ast.Gt: x_ > c_, ast.GtE: x_ >= c_}.get(type(op_))
+                    return None
+                g_ = _eg(body[0].test, val_)
+                if g_ is None:
+                    unknown = True
+                    continue
+                whole = env_.get(ps_[0]) in (None, 0) and (len(ps_) < 2 or env_.get(ps_[1]) is None)
+                if g_ and not whole and witness is None:
+                    witness = env_
+            if witness is not None:
+                R.viol(sf, body[0], 'returns this AnsiStr unchanged when %s, which also holds for %s: s[%s:%s] is not the whole string (an end of 0 selects nothing)' % (
+                    short(body[0].test), ', '.join('%s=%r' % kv for kv in witness.items()),
+                    '' if witness.get(ps_[0]) is None else witness.get(ps_[0]), '' if len(ps_) < 2 or witness.get(ps_[1]) is None else witness.get(ps_[1])), construct=cons)
+                continue
+            if unknown:
+                R.undecided(sf, body[0], 'guard of the early `return self` not evaluated: %s' % short(body[0].test), construct=cons)
+                continue
+            # the guard admits only whole-string bounds: go on with the rest
+            rest_ = body[1:]
+            if len(rest_) == 1 and isinstance(rest_[0], ast.Return) and rest_[0].value is not None:
+                expr, ret = rest_[0].value, rest_[0]
         if expr is None and name == 'remove_formatting' and body and isinstance(body[0], ast.If) and not body[0].orelse and len(body[0].body) == 1 and \
                 isinstance(body[0].body[0], ast.Return) and is_name(body[0].body[0].value, selfn):
             # an early `return self` guarded by find_settings(settings, ..) finding nothing: find_settings reports a position only where *all* the given
